@@ -28,7 +28,8 @@ META = dict(
                'directories with the default prefixes (relax./neb.) never collide, so the tag map is a bijection onto the '
                'directories; the flattened mapping of map2string addresses, for species c and place i, entry '
                'offset_c + mapping[c][i] of the concatenated POSCAR list; trans.pl applied to a state POSCAR list yields '
-               'the POSCAR list of (g*state).reorder(mapping) whenever g acts on positions as its index map says; Perl\'s '
+               'the POSCAR list of (g*state).reorder(mapping) whenever g acts on positions as its index map says - with C27 '
+               'soundness: for a mapping returned by equivalencemap the output is the POSCAR list of the transition endpoint; Perl\'s '
                'one-pass wrap differs from the argument by an integer in {-1,0,1}. tarfile, Perl float arithmetic, make, '
                'POSCAR parsing and the shipped nebmake.pl/Vasp.pm are NOT modelled: the real archive is built, extracted and '
                'the bundled script executed for every generated dictionary.',
@@ -36,8 +37,9 @@ META = dict(
     technique='Lean 4 proofs about naming/indexing/affine map + real archive round trip with the bundled Perl script',
     lean_modules=['OnsagerModel.C30', 'OnsagerProofs.C30'],
     theorems=['Onsager.C30.fromDigits_fmt02', 'Onsager.C30.fmt02_injective', 'Onsager.C30.dirName_injective',
-              'Onsager.C30.allDirs_nodup', 'Onsager.C30.flatMapping_index', 'Onsager.C30.transpl_applies_map',
-              'Onsager.C30.wrap1_spec'],
+              'Onsager.C30.allDirs_nodup', 'Onsager.C30.default_dirs_nodup', 'Onsager.C30.tagmap_bijective',
+              'Onsager.C30.flatMapping_index', 'Onsager.C30.transpl_applies_map', 'Onsager.C30.reorder_imul_chemorder',
+              'Onsager.C30.transpl_reproduces_endpoint', 'Onsager.C30.wrap1_spec'],
     tie_theorems=[],
     rule='(calculator from the interstitial / vacancy zoo, supercell matrix, archive options basedir/KPOINTS); a case is one '
          'archive member group: tag map, one POSCAR read-back, one Makefile line, one trans.* file run through perl; '
